@@ -397,7 +397,7 @@ class C04Bounded(Bounded):
         from sigma.types import SigmaString, SigmaExpansion
         from sigma.exceptions import SigmaError
         rnd = random.Random(seed)
-        alphabet = ["a", "Z", "ä", "€", "\n", "\\\\", "\\*", " ", "\U0001F600", "中", "Ā"]
+        alphabet = ["a", "Z", "ä", "€", "\n", "\\\\", "\\*", " ", "\U0001F600", "中", "Ā", "\u0301", "\u212b"]       # incl. characters that are not in Unicode normalisation form C: the payload's bytes are what is written
         maxlen = 3 if tier == "quick" else 4
         enc = {"wide": lambda t: t.encode("utf-16le"), "utf16le": lambda t: t.encode("utf-16le"), "utf16be": lambda t: t.encode("utf-16be"),
                "utf16": lambda t: b"\xff\xfe" + t.encode("utf-16le")}
@@ -408,7 +408,7 @@ class C04Bounded(Bounded):
             seen = {}
 
             def append(self, f):
-                key = (tuple(f["input"][0]), f["text"].split(":")[1][:12])
+                key = (tuple(f["input"][0]), f["text"].split(":")[1][:12], f["text"].startswith("KNOWN-BOM"))
                 _F.seen[key] = _F.seen.get(key, 0) + 1
                 if _F.seen[key] == 1:
                     list.append(self, f)
@@ -448,29 +448,35 @@ class C04Bounded(Bounded):
                             continue
                     got = vals(item)
                     nontriv += 1
-                    if chain[-1] in enc:
-                        ok = len(got) == 1 and text_bytes(got[0]) == data
-                        if not ok:
-                            failures.append({"text": f"{chain} on {src!r}: value bytes {[text_bytes(g) for g in got]!r} != UTF-16 encoding {data!r}", "input": [chain, src]})
-                    elif chain[-1] == "base64":
-                        ok = len(got) == 1 and M.native_text(got[0].s) == b64encode(data).decode()
-                        if not ok:
-                            failures.append({"text": f"{chain} on {src!r}: {[M.native_text(g.s) for g in got]} != b64 {b64encode(data).decode()!r}", "input": [chain, src]})
-                    else:
-                        want = b64offset_oracle(data)
+                    # recorded finding (utf16 BOM): the value holds U+FEFF as a character, i.e. the bytes EF BB BF instead of FF FE.  Exactly
+                    # that deviation - everything else of the value as specified - is reported as KNOWN-BOM; any other difference is new.
+                    alts = [(data, "")]
+                    if chain[0] == "utf16":
+                        alts.append((b"\xef\xbb\xbf" + payload.encode("utf-16le"), "KNOWN-BOM "))
+
+                    def outcome(d):
+                        if chain[-1] in enc:
+                            return None if len(got) == 1 and text_bytes(got[0]) == d else f"{chain} on {src!r}: value bytes {[text_bytes(g) for g in got]!r} != UTF-16 encoding {data!r}"
+                        if chain[-1] == "base64":
+                            return None if len(got) == 1 and M.native_text(got[0].s) == b64encode(d).decode() else f"{chain} on {src!r}: {[M.native_text(g.s) for g in got]} != b64 {b64encode(data).decode()!r}"
+                        want = b64offset_oracle(d)
                         g = [M.native_text(x.s) for x in got]
                         if g != want:
-                            failures.append({"text": f"{chain} on {src!r}: base64offset {g} != payload-determined windows {want}", "input": [chain, src]})
-                        else:
-                            for pl in range(0, 6):
-                                for sl in (0, 1, 2, 5):
-                                    A = bytes(rnd.randrange(256) for _ in range(pl))
-                                    Bs = bytes(rnd.randrange(256) for _ in range(sl))
-                                    full = b64encode(A + data + Bs).decode()
-                                    k = pl % 3
-                                    at = 4 * ((pl - k) // 3) + (8 * k + 5) // 6
-                                    if full[at:at + len(g[k])] != g[k]:
-                                        failures.append({"text": f"{chain} on {src!r}: value {k} {g[k]!r} does not occur at its aligned position in b64 of prefix {pl}/suffix {sl}", "input": [chain, src]})
+                            return f"{chain} on {src!r}: base64offset {g} != payload-determined windows {b64offset_oracle(data)}"
+                        for pl in range(0, 6):
+                            for sl in (0, 1, 2, 5):
+                                A = bytes(rnd.randrange(256) for _ in range(pl))
+                                Bs = bytes(rnd.randrange(256) for _ in range(sl))
+                                full = b64encode(A + d + Bs).decode()
+                                k = pl % 3
+                                at = 4 * ((pl - k) // 3) + (8 * k + 5) // 6
+                                if full[at:at + len(g[k])] != g[k]:
+                                    return f"{chain} on {src!r}: value {k} {g[k]!r} does not occur at its aligned position in b64 of prefix {pl}/suffix {sl}"
+                        return None
+                    first = outcome(data)
+                    if first is not None:
+                        known = chain[0] == "utf16" and outcome(alts[1][0]) is None
+                        failures.append({"text": ("KNOWN-BOM " if known else "") + first, "input": [chain, src]})
                     if len(samples) < 5 and ln == 2:
                         samples.append({"chain": chain, "source": src, "values": [M.native_text(x.s) for x in got]})
         return {"evaluations": n, "distinct_nontrivial": nontriv, "failures": list(failures)[:40], "failure_counts": {str(k): v for k, v in _F.seen.items()}, "bound": f"payloads of <= {maxlen} symbols over {alphabet!r}, 10 modifier chains, prefixes 0..5 x suffixes (0,1,2,5) of random bytes",
